@@ -107,7 +107,7 @@ register(
     level="proof",
     streams=["fp", "steps", "demand", "fixed_point"],
     falsifier=fals_analyses.falsify_C01,
-    partial=["task priorities are assumed distinct (the job-level order must be transitive); arrival models outside the C11 findings; NP/LP variants use a scalar WCET as in the crate's API"],
+    partial=["arrival models outside the C11 findings; NP/LP variants use a scalar WCET as in the crate's API; tasks sharing a priority level are covered (theorems *_equal_priorities: ties among equal-priority jobs broken by release time, simultaneous releases arbitrarily; the distinct-priority theorems are a special case)"],
     explanation="abstract busy-window theorem for job-level fixed-priority scheduling with non-preemptable states (reach_rt, run_to_completion, blocked_bound) instantiated for the four FP analyses: offset < L, blocking by at most one lower-priority segment, higher-priority and own earlier workload bounded by the RBFs, run-to-completion threshold; composed with C06 (meaning of Ok(R)).",
 )
 
